@@ -310,7 +310,7 @@ static void edge_add(const char *he, const char *hf, int same, const char *ae, c
     char tmp[512];
     /* function-local static locks are all spelled `lock`: qualify them by function */
     int hl = !strcmp(he, "&lock") || !strcmp(he, "lock"), al = !strcmp(ae, "&lock") || !strcmp(ae, "lock");
-    snprintf(tmp, sizeof(tmp), "%s%s%s>%s%s%s%s", he, hl ? "@" : "", hl ? hf : "", ae, al ? "@" : "", al ? af : "", same ? "!same" : "");
+    snprintf(tmp, sizeof(tmp), "%s%s%s~%s%s%s%s", he, hl ? "@" : "", hl ? hf : "", ae, al ? "@" : "", al ? af : "", same ? "!same" : "");
     for (char *q = tmp; *q; q++)
         if (*q == ' ')
             *q = '_';
